@@ -1646,7 +1646,9 @@ fn gen_c15(r: &mut Rng, index: u64) -> String {
             _ => vec![format!("p{}", r.pick(&[20u64, 100])), framed],
         });
     } else {
-        let late = qt.map(|t| t - 5).unwrap_or(lt - 10);
+        // "late" = shortly before the attempt's own timeout; without retries the only deadline is the
+        // lifetime, and an answer must not race it (load noise): 60 ms of margin
+        let late = qt.map(|t| t - 5).unwrap_or(lt - 60);
         match r.below(9) {
             7 | 8 => {
                 // paced flood: a decoy every millisecond across every per-attempt deadline, with or
@@ -1705,7 +1707,7 @@ fn gen_c15(r: &mut Rng, index: u64) -> String {
             }
             _ => {
                 // delayed answer to the first query: before / after the attempt's timeout
-                let p = *r.pick(&[20u64, late, late + 25]);
+                let p = if qt.is_none() { *r.pick(&[20u64, late]) } else { *r.pick(&[20u64, late, late + 25]) };
                 udp.push(vec![format!("p{}", p), matching(&q)]);
             }
         }
